@@ -13,6 +13,7 @@ import (
 	"go/constant"
 	"go/token"
 	"go/types"
+	"os"
 	"sort"
 	"strings"
 
@@ -21,15 +22,15 @@ import (
 
 // Effect is an observable action of a function.
 type Effect struct {
-	Cond Ref
-	Kind string // "store", "call", "mapupdate", "send", "go", "defer", "panic"
-	Addr *E     // store / mapupdate: address (map) expression
-	Val  *E     // store: value; mapupdate: value
-	Key  *E     // mapupdate: key
-	Call *E     // call: the call expression (callee in Aux, args)
-	Pos  token.Pos
-	Fn   *ssa.Function // function containing the instruction
-	Ins  ssa.Instruction
+	Cond  Ref
+	Kind  string // "store", "call", "mapupdate", "send", "go", "defer", "panic"
+	Addr  *E     // store / mapupdate: address (map) expression
+	Val   *E     // store: value; mapupdate: value
+	Key   *E     // mapupdate: key
+	Call  *E     // call: the call expression (callee in Aux, args)
+	Pos   token.Pos
+	Fn    *ssa.Function // function containing the instruction
+	Ins   ssa.Instruction
 	Local bool // store into a local (non-escaping) allocation
 }
 
@@ -69,18 +70,18 @@ type Gate struct {
 	stack []*ssa.Function
 	// Subs lists the inlined activations of the evaluation (callee summaries
 	// with reach conditions and values in terms of the top-level function).
-	Subs     []*Summary
-	Top      *Summary // the activation of the function under evaluation
+	Subs []*Summary
+	Top  *Summary // the activation of the function under evaluation
 	// Search enables the canonical form of pure search loops: a complete
 	// range over a collection without side effects and with one early exit
 	// leaves through that exit iff exists(collection, early-exit test of the
 	// element) and runs to exhaustion otherwise.  slices.Contains and
 	// slices.ContainsFunc get the same form.
-	Search   bool
-	fnByName map[string]*ssa.Function
+	Search        bool
+	fnByName      map[string]*ssa.Function
 	nextDepthBase int
-	seq      int
-	Funcs    map[string]bool // functions evaluated (incl. inlined)
+	seq           int
+	Funcs         map[string]bool // functions evaluated (incl. inlined)
 }
 
 func NewGate(p *Prog) *Gate {
@@ -121,31 +122,32 @@ func (g *Gate) EvalArgs(fn *ssa.Function, args []*E, bindings []*E) *Summary {
 }
 
 type frame struct {
-	g     *Gate
-	fn    *ssa.Function
-	env   map[ssa.Value]*E
-	rc    map[*ssa.BasicBlock]Ref
-	mem   *mem
-	sum   *Summary
-	base  Ref // reach condition of the call site in the caller
-	back  map[[2]int]bool
-	heads map[*ssa.BasicBlock]bool
-	tag   string
-	defers []*ssa.Defer
-	order  []*ssa.BasicBlock
-	relCache map[*ssa.BasicBlock][]Ref
-	curRC  Ref
-	curBlock *ssa.BasicBlock
-	loops    []*Loop
-	loopsOK  bool
-	search   map[*Loop]*searchInfo
-	effStart map[*ssa.BasicBlock]int // loop header -> number of effects when it was entered
-	depthBase int                    // number of search scopes enclosing this activation
+	g         *Gate
+	fn        *ssa.Function
+	env       map[ssa.Value]*E
+	rc        map[*ssa.BasicBlock]Ref
+	mem       *mem
+	sum       *Summary
+	base      Ref // reach condition of the call site in the caller
+	back      map[[2]int]bool
+	heads     map[*ssa.BasicBlock]bool
+	tag       string
+	defers    []*ssa.Defer
+	order     []*ssa.BasicBlock
+	relCache  map[*ssa.BasicBlock][]Ref
+	curRC     Ref
+	curBlock  *ssa.BasicBlock
+	loops     []*Loop
+	loopsOK   bool
+	search    map[*Loop]*searchInfo
+	effStart  map[*ssa.BasicBlock]int // loop header -> number of effects when it was entered
+	depthBase int                     // number of search scopes enclosing this activation
 }
 
 // searchInfo is the canonical form of one pure search loop (nil X: the loop
 // does not qualify).
 type searchInfo struct {
+	why   int
 	X     Ref // exists(collection, early-exit test)
 	early [2]*ssa.BasicBlock
 	ok    bool
@@ -1459,9 +1461,21 @@ func (f *frame) searchExit(p, b *ssa.BasicBlock) (*Loop, Ref, bool) {
 	return nil, False, false
 }
 
-func (f *frame) searchInfoOf(l *Loop) *searchInfo {
+func (f *frame) searchInfoOf(l *Loop) (ret *searchInfo) {
 	if si, ok := f.search[l]; ok {
-		return si
+		{
+			si.why = 1
+			return si
+		}
+	}
+	if os.Getenv("UFCHECK_DEBUG_SEARCH") != "" {
+		defer func() {
+			why := "asked too early"
+			if ret != nil {
+				why = fmt.Sprintf("ok=%v why=%d", ret.ok, ret.why)
+			}
+			fmt.Fprintf(os.Stderr, "search %s loop@%d: %s\n", FuncName(f.fn), l.Header.Index, why)
+		}()
 	}
 	// every block of the loop must have been evaluated
 	for b := range l.Blocks {
@@ -1477,7 +1491,10 @@ func (f *frame) searchInfoOf(l *Loop) *searchInfo {
 	u := f.g.U
 	ro := rangedOver(l)
 	if ro == nil || !ro.Full || ro.Kind != "index" {
-		return si
+		{
+			si.why = 2
+			return si
+		}
 	}
 	// the only loop-carried value is the position
 	var basePhi *ssa.Phi
@@ -1488,12 +1505,18 @@ func (f *frame) searchInfoOf(l *Loop) *searchInfo {
 		basePhi, _ = x.X.(*ssa.Phi)
 	}
 	if basePhi == nil {
-		return si
+		{
+			si.why = 3
+			return si
+		}
 	}
 	for _, in := range l.Header.Instrs {
 		if ph, ok := in.(*ssa.Phi); ok && ph != basePhi {
 			if e := f.env[ph]; e != nil && e.Op == "loopphi" {
-				return si
+				{
+					si.why = 4
+					return si
+				}
 			}
 		}
 	}
@@ -1509,7 +1532,10 @@ func (f *frame) searchInfoOf(l *Loop) *searchInfo {
 	nEarly := 0
 	for _, ex := range l.Exits {
 		if parent(ex[1]) != outer {
-			return si
+			{
+				si.why = 5
+				return si
+			}
 		}
 		if ex[0] != l.Header {
 			nEarly++
@@ -1517,18 +1543,27 @@ func (f *frame) searchInfoOf(l *Loop) *searchInfo {
 		}
 	}
 	if nEarly != 1 {
-		return si
+		{
+			si.why = 6
+			return si
+		}
 	}
 	// no side effects in the body
 	start, have := f.effStart[l.Header]
 	if !have {
-		return si
+		{
+			si.why = 7
+			return si
+		}
 	}
 	for _, ef := range f.sum.Effects[start:] {
 		if ef.Kind == "store" && ef.Local {
 			continue
 		}
-		return si
+		{
+			si.why = 8
+			return si
+		}
 	}
 	// the early-exit test relative to the header
 	rel := map[*ssa.BasicBlock]Ref{l.Header: True}
@@ -1555,7 +1590,10 @@ func (f *frame) searchInfoOf(l *Loop) *searchInfo {
 	}
 	pr, ok := rel[si.early[0]]
 	if !ok {
-		return si
+		{
+			si.why = 9
+			return si
+		}
 	}
 	test := u.bdd.And(pr, f.localCond(si.early[0], si.early[1]))
 	// strip the loop's own continue condition (a single literal)
@@ -1566,12 +1604,18 @@ func (f *frame) searchInfoOf(l *Loop) *searchInfo {
 		}
 	}
 	if body == nil {
-		return si
+		{
+			si.why = 10
+			return si
+		}
 	}
 	cont := f.localCond(l.Header, body)
 	sup := u.bdd.Support(cont)
 	if len(sup) != 1 {
-		return si
+		{
+			si.why = 11
+			return si
+		}
 	}
 	test = u.bdd.Cofactor(test, sup[0], cont == u.bdd.Var(sup[0]))
 	// element and position become the bound variables
@@ -1592,22 +1636,43 @@ func (f *frame) searchInfoOf(l *Loop) *searchInfo {
 		elemT = types.Typ[types.Uint8]
 	}
 	if elemT == nil {
-		return si
+		{
+			si.why = 12
+			return si
+		}
 	}
 	pred := f.bindElem(test, collE, idxE, d, elemT)
-	phiE := f.env[basePhi]
+	// values carried by this loop or by loops nested in it must not survive
+	own := map[*E]bool{}
+	for _, l2 := range f.loopList() {
+		if l2 == l || l.Blocks[l2.Header] {
+			for _, in := range l2.Header.Instrs {
+				if ph, ok := in.(*ssa.Phi); ok {
+					if e := f.env[ph]; e != nil && e.Op == "loopphi" {
+						own[e] = true
+					}
+				}
+			}
+		}
+	}
 	bad := false
 	for _, at := range u.AtomsOf(pred) {
-		if u.Mentions(at, func(x *E) bool { return x == phiE || (x.Op == "loopphi" && strings.HasPrefix(x.Aux, f.tag+":")) }) {
+		if u.Mentions(at, func(x *E) bool { return own[x] }) {
 			bad = true
 		}
 	}
 	if bad {
-		return si
+		{
+			si.why = 13
+			return si
+		}
 	}
 	si.X = u.Exists(collE, pred)
 	si.ok = true
-	return si
+	{
+		si.why = 14
+		return si
+	}
 }
 
 // bindElem rewrites a test over coll[idx] / idx into one over BVar(d) / BIdx(d).
